@@ -9,7 +9,7 @@ from epbd.models import res_ok
 from . import epmodel
 from .epmodel import get, emap_items
 from .common import loc_of, AnchorMissing
-from .c01 import make_base_nonneg
+from .c01 import make_base_nonneg, component_classes, gate_of, only_values_leaves
 
 SRC_OF = {"EL_INSITU": "INSITU", "EL_COGEN": "COGEN", "TERMOSOLAR": "INSITU", "EAMBIENTE": "INSITU"}
 COMP = ("ren", "nren", "co2")
@@ -197,6 +197,14 @@ def run(ctx, rep):
                 else:
                     rep.violated(key, "cogenerated-electricity factor = weighted cogeneration input / cogenerated electricity",
                                  construct=where, why=why)
+                if ok and c == "ren":
+                    # which component lines the numerators and the denominator count (class representatives):
+                    # every CONSUMO,COGEN line of the factor's carrier / every PRODUCCION,EL_COGEN line, nothing else
+                    for key2, clause2, ok2, why2 in cgn_terms(A, L, polys[0], c):
+                        if ok2:
+                            rep.discharged(key2, clause2)
+                        else:
+                            rep.violated(key2, clause2, construct=where, why=why2)
                 for d in ("A_NEPB", "A_RED"):
                     fb = L.F(ci, "COGEN", d, "B")
                     key = "C02/cgn/stepB/%s/%s" % (d, c)
@@ -247,6 +255,119 @@ def cgn_shape(A, p):
     if len(dens) != 1:
         return False, "different denominators"
     return True, ""
+
+
+def _all_classes():
+    """(name, kind, service|source, carrier|None, representative) for every class of component line"""
+    names = tm.ADT_NAMES
+    out = []
+    seen = set()
+    for cj in sorted(names["Carrier"]):
+        for cls_name, comp in component_classes(cj):
+            kind = cls_name.split("/")[0]
+            if kind != "Used":
+                if cls_name in seen:
+                    continue
+                seen.add(cls_name)
+                out.append((cls_name, kind, cls_name.split("/")[1], None, comp))
+            else:
+                out.append(("%s/%s" % (cls_name, names["Carrier"][cj][0]), kind, cls_name.split("/")[1],
+                            names["Carrier"][cj][0], comp))
+    ev_idx = dict((n, i) for i, (n, _f) in names["Energy"].items())
+    fs = tm.field_names("EOut", 0)
+    for s_, (sn, _f) in sorted(names["Service"].items()):
+        rec = tm.adt("EOut", 0, *[tm.adt("Service", s_) if f == "service" else tm.sym("cls:EOut.%s" % f) for f in fs])
+        out.append(("Out/%s" % sn, "Out", sn, None, tm.adt("Energy", ev_idx["Out"], rec)))
+    return out
+
+
+def _component_sum(A, atom):
+    """[(iterator, lambda)] when the atom is Σ_t of Σ over component lines of their values, else None"""
+    if atom.kind != "sumt":
+        return None
+    p = atom.parts[0]
+    out = []
+    for mono, c in p.m.items():
+        if c != 1 or len(mono) != 1 or mono[0][1] != 1:
+            return None
+        ea = A.atoms[mono[0][0]]
+        t = ea.term
+        if t is None or t.op != "vsumover":
+            return None
+        base = t.a[0]
+        while base.op in ("filter",):
+            base = base.a[0]
+        if base.op != "iter" or "components" not in tm.show(base, 3) or base.a[0].op in ("collect", "filter_map", "map"):
+            return None
+        x = tm.fresh("c")
+        if not only_values_leaves(tm.apply_lam(t.a[1], [x]), x):
+            return None
+        out.append((t.a[0], t.a[1]))
+    return out
+
+
+def _counted(sums, want):
+    """compare the classes counted by a list of component sums with the predicate `want(kind, tag, carrier)`"""
+    for cls_name, kind, tag, car, comp in _all_classes():
+        n = 0
+        for it, _lam in sums:
+            g = gate_of(it, comp)
+            if g is tm.TRUE:
+                n += 1
+            elif g is not tm.FALSE:
+                return False, "the gate does not decide class %s: %s" % (cls_name, tm.show(g, 3)[:200])
+        w = 1 if want(kind, tag, car) else 0
+        if n != w:
+            return False, "%s lines are counted %d time(s), expected %d" % (cls_name, n, w)
+    return True, ""
+
+
+def cgn_terms(A, L, p, comp):
+    """Obligations on the sums of the derived cogeneration factor Σ_cr F(cr)·Σ input_cr / Σ production."""
+    names = tm.ADT_NAMES
+    f_atom = {}
+    for cj, (cn, _f) in sorted(names["Carrier"].items()):
+        fp = A.scalar(tm.getf(L.F(cj, "RED", "SUMINISTRO", "A"), "RenNrenCo2", comp))
+        if len(fp.m) == 1:
+            (mono, c), = fp.m.items()
+            if c == 1 and len(mono) == 1 and mono[0][1] == 1:
+                f_atom[mono[0][0]] = cn
+    out = []
+    den_done = False
+    seen_carriers = set()
+    for mono, _c in p.m.items():
+        num = [A.atoms[a] for a, pw in mono if A.atoms[a].kind == "sumt" and pw == 1]
+        den = [A.atoms[a] for a, pw in mono if A.atoms[a].kind == "sumt" and pw == -1]
+        fac = [a for a, pw in mono if A.atoms[a].kind == "term" and pw == 1]
+        cn = f_atom.get(fac[0]) if len(fac) == 1 else None
+        if cn is None or len(num) != 1:
+            out.append(("C02/cgn/input/?", "each addend of the cogeneration factor is F(cr,RED,SUMINISTRO,A)·Σ input_cr", False,
+                        "factor atom is not a grid supply factor lookup: %s" % A.show(alg.Poly({mono: 1}), 2)[:200]))
+            continue
+        if cn in seen_carriers:
+            continue
+        seen_carriers.add(cn)
+        sums = _component_sum(A, num[0])
+        if sums is None:
+            ok, why = False, "numerator is not a Σ over component lines of their values: %s" % num[0].desc
+        else:
+            ok, why = _counted(sums, lambda kind, tag, car: kind == "Used" and tag == "COGEN" and car == cn)
+        out.append(("C02/cgn/input/%s" % cn, "the input paired with F(%s) is the sum of all CONSUMO,COGEN lines of %s and nothing else" % (cn, cn),
+                    ok, why))
+        if not den_done:
+            den_done = True
+            sums = _component_sum(A, den[0]) if len(den) == 1 else None
+            if sums is None:
+                ok, why = False, "denominator is not a Σ over component lines of their values"
+            else:
+                ok, why = _counted(sums, lambda kind, tag, car: kind == "Prod" and tag == "EL_COGEN")
+            out.append(("C02/cgn/production", "the denominator is the sum of all PRODUCCION,EL_COGEN lines and nothing else", ok, why))
+    if len(seen_carriers) < len(names["Carrier"]) - 0 and not any(not o[2] for o in out):
+        missing = sorted(set(n for n, _f in names["Carrier"].values()) - seen_carriers)
+        if missing:
+            out.append(("C02/cgn/input/coverage", "every carrier that can feed the cogeneration has its addend", False,
+                        "no addend for %s" % missing))
+    return out
 
 
 def ite_leaves(t):
